@@ -15,10 +15,50 @@ using namespace c05;
 
 constexpr long long LABEL0 = 100;
 
+// Monitor in front of the element reads: map every result index through the index-level functions the view uses and
+// refuse to evaluate when a source index leaves the source shape (reported as "OOB <result shape> <result index> <source index>"),
+// so that a wrong slice computation is a recorded event instead of thousands of process deaths.
+template <typename slices_t>
+static bool precheck(vh::Out& out, const std::vector<long long>& shape, const slices_t& slices)
+{
+    const auto src_shape = vh::to_shape(shape);
+    const auto dshape = ix::apply_shape_slice(src_shape, slices);
+    auto dv = vh::to_vec(dshape);
+    auto n = vh::prod(dv);
+    bool bad = false;
+    for (auto e : dv)
+        if (e < 0 || e > vh::MAX_EMIT) bad = true;
+    if (bad || n > vh::MAX_EMIT) {
+        out.tok("OOB");
+        out.vec(dv);
+        out.tok("0 0");
+        return false;
+    }
+    if (dv.empty()) dv.push_back(1);   // 0-d result: one element, mapped from the empty index
+    for (vh::Odo o(dv); !o.end; o.next()) {
+        nmtools_list<nm_size_t> idx;
+        if (vh::to_vec(dshape).size()) idx = o.idx;
+        const auto src = ix::apply_slice(idx, src_shape, slices);
+        auto sv = vh::to_vec(src);
+        bool in = sv.size() == shape.size();
+        for (size_t k = 0; in && k < sv.size(); k++)
+            if (sv[k] < 0 || sv[k] >= shape[k]) in = false;
+        if (!in) {
+            out.tok("OOB");
+            out.vec(vh::to_vec(dshape));
+            out.vec(vh::to_vec(idx));
+            out.vec(sv);
+            return false;
+        }
+    }
+    return true;
+}
+
 // view::apply_slice(array, slices)
 template <typename slices_t>
 static void run_view(vh::Out& out, const std::vector<long long>& shape, const slices_t& slices)
 {
+    if (!precheck(out, shape, slices)) return;
     auto a = vh::make_arr<int>(shape, LABEL0, 1);
     auto v = view::apply_slice(a, slices);
     vh::emit_view_all(out, v);
@@ -55,6 +95,9 @@ static void run_view_variadic(vh::Args& in, vh::Out& out)
 {
     auto shape = in.vec();
     const auto slices = read_pack<P...>(in);
+    if constexpr (sizeof...(P) > 1) {
+        if (!precheck(out, shape, slices)) return;
+    }
     auto a = vh::make_arr<int>(shape, LABEL0, 1);
     auto v = call_slice(a, slices, std::make_index_sequence<sizeof...(P)>{});
     vh::emit_view_all(out, v);
@@ -68,6 +111,7 @@ static void run_view_mutable(vh::Args& in, vh::Out& out)
 {
     auto shape = in.vec();
     const auto slices = read_pack<P...>(in);
+    if (!precheck(out, shape, slices)) return;
     auto a = vh::make_arr<int>(shape, LABEL0, 1);
     auto mv = view::apply_mutable_slice(a, slices);
     const auto dshape = nm::shape(mv);
